@@ -54,7 +54,7 @@ def s01_iterator_discipline(ctx):
         if 'size_hint' not in fn:
             r.violate(short + '|size_hint|not-overridden', '%s is ExactSizeIterator but does not define size_hint' % short, imp['file'], imp['line'])
             continue
-        sh = m.body(fn['size_hint'])
+        sh = m.body_inlined(fn['size_hint'])
         rfield = None
         for pf in all_path_facts(sh):
             if pf.ret and pf.ret[0] == 'agg' and pf.ret[1] == 'tuple':
@@ -71,7 +71,7 @@ def s01_iterator_discipline(ctx):
         if rfield is None:
             continue
         # (1)+(2) next
-        nb = m.body(fn['next'])
+        nb = m.body_inlined(fn['next'])
         some_paths = none_paths = 0
         for pf in all_path_facts(nb):
             if not pf.returns:
@@ -122,7 +122,7 @@ def s01_iterator_discipline(ctx):
         for name, pth in sorted(fn.items()):
             if name in ('next', 'size_hint'):
                 continue
-            b = m.body(pth)
+            b = m.body_inlined(pth)
             sig = f.fns.get(pth, {}).get('sig', '')
             if 'Option<' in sig.split('->')[-1]:
                 tested = False
@@ -185,7 +185,7 @@ def s01b_pos_len_iterators(ctx):
         fn = {it['name']: it['path'] for it in imp['items'] if it['kind'] == 'Fn'}
         if 'size_hint' not in fn:
             continue
-        sh = m.body(fn['size_hint'])
+        sh = m.body_inlined(fn['size_hint'])
         A = B = None
         for pf in all_path_facts(sh):
             if pf.ret and pf.ret[0] == 'agg' and pf.ret[1] == 'tuple':
@@ -229,7 +229,7 @@ def s01b_pos_len_iterators(ctx):
             return 'other'
 
         for name, pth in sorted(fn.items()):
-            b = m.body(pth)
+            b = m.body_inlined(pth)
             for pf in all_path_facts(b):
                 if not pf.returns:
                     continue
@@ -259,7 +259,7 @@ def s01b_pos_len_iterators(ctx):
                         r.violate(key + '|none-discipline', '%s::next returns None without pos == len (or after moving pos)' % short, b.file, b.line)
                 if name in ('count', 'len') and not is_len_minus_pos(pf.ret):
                     r.violate(key + '|not-len-minus-pos', '%s::%s does not return %s - %s' % (short, name, LEN, POS), b.file, b.line)
-        lb = m.body(m.impl_fn_path(exact[p], 'len')) if m.impl_fn_path(exact[p], 'len') else None
+        lb = m.body_inlined(m.impl_fn_path(exact[p], 'len')) if m.impl_fn_path(exact[p], 'len') else None
         if lb is not None:
             for pf in all_path_facts(lb):
                 r.inst(short + '|len')
@@ -281,7 +281,8 @@ def s01c_single_slot_mapping(ctx):
     m = Model(f)
     r = RuleResult('S01c', 'Window::get and Index<PeriodType>::index both obtain the ring slot from Window::slice_index applied to their own '
                            'index parameter (one index->slot mapping for all indexed observers)')
-    slot_fn = 'core::window::Window::<T>::slice_index'
+    import wroles
+    slot_fn = wroles.window_roles(f).slot_fn_path        # the private index -> slot mapping (`slice_index` today)
     if f.generic_body(slot_fn) is None:
         raise Broken('anchor %s not found' % slot_fn)
     observers = []
@@ -445,8 +446,10 @@ def s03_sibling_constructors(ctx):
     m = Model(f)
     r = RuleResult('S03', 'every constructor of Window and of SMM (including the hand-written Deserialize) derives the non-serialized state '
                           'from the length with the same expression')
-    # ---- Window: s_1 = size.saturating_sub(1); size = length of buf
+    # ---- Window: s_1 = size.saturating_sub(1); size = length of buf   (fields are identified by role, see wroles.py)
     W = 'core::window::Window'
+    import wroles
+    WR = wroles.window_roles(f)
     ctors = []
     for fp in ('core::window::Window::<T>::new', 'core::window::Window::<T>::from_parts', 'core::window::Window::<T>::empty'):
         gb = f.generic_body(fp)
@@ -459,9 +462,11 @@ def s03_sibling_constructors(ctx):
             nlit += 1
             key = 'Window|%s' % name
             r.inst(key)
-            if not all(k in fields for k in ('size', 's_1', 'buf', 'index')):
+            if not all(k in fields for k in (WR.size, WR.last, WR.buf, WR.cursor)):
                 r.violate(key + '|fields', 'Window literal lacks expected fields', b.file, line)
                 continue
+            # today's names for the roles (keys of violations and the texts below keep the familiar spelling)
+            fields = {'size': fields[WR.size], 's_1': fields[WR.last], 'buf': fields[WR.buf], 'index': fields[WR.cursor]}
             S = fields['size']
             s1 = _subst(fields['s_1'], S, 'L')
             cs, c1 = _canon(S), _canon(fields['s_1'])
